@@ -8,7 +8,8 @@ scheduling (packets move, the loop advances and the transport dies only when the
 cut / a DISCONNECT delivered / a side aborting at EVERY packet boundary of each script; the same lines drive
 Drivers/C09.lean; packets on the wire, API results, callback logs, channel tables and pending calls are compared.
 Oracle: the property's predicate on the real code (nothing pending at quiescence, callback order, one final
-notification, empty table, SFTP requests all fail), including end-to-end stream / SFTP / connect scenarios.
+notification, empty table, SFTP requests all fail), including end-to-end stream / SFTP / connect scenarios; judged
+also at every quiescent point BEFORE any transport loss: a channel whose peer's CLOSE has arrived is cleaned up.
 """
 
 from __future__ import annotations
@@ -36,7 +37,11 @@ MANIFEST = {
             'open/request/global-request/wait_closed/connect waiter and every create_session call is resolved '
             '(waiters_resolved) and every session got its single final connection_lost (every_session_closed); for '
             'two endpoints of a channel every interleaving of close/abort/EOF terminates in closed/closed within an '
-            'explicit bound (close_handshake_*); `eof_received` is delivered at most once, also when the peer\'s CLOSE '
+            'explicit bound (close_handshake_*), and — the connection staying up — a channel closed in both directions '
+            'whose queues have drained is fully cleaned up (waiters resolved, connection_lost delivered, unregistered) '
+            'from ANY phase incl. start-up with an unanswered request (closed_channel_cleaned_any_phase; the '
+            'side condition "no undelivered data" is necessary, witness startup_data_then_close_hang_witness = '
+            'defect D2 of the code); `eof_received` is delivered at most once, also when the peer\'s CLOSE '
             'overtakes its pending EOF (eof_at_most_once); stream and SFTP waiters are resolved by connection_lost — '
             'for the SFTP request table exactly when recv_packets catches every exception class, a fact regenerated '
             'from the source on each run (Gen/C09.lean; the earlier defect is fixed, F37). The model is tied to the '
@@ -64,8 +69,11 @@ ASSUMPTIONS = [
     '(a peer does not keep sending after its own DISCONNECT)',
     'futures owned by the application (session_requested / server_requested awaitables) are eventually resolved '
     'by the application',
-    'close_handshake_quiescent_closed: no reader stays paused holding data and no sender stays blocked on the '
-    'window (flow-control liveness is C08)',
+    'close_handshake_quiescent_closed / closed_channel_cleaned_any_phase: no reader stays paused holding data and no '
+    'sender stays blocked on the window (flow-control liveness is C08); for a channel still starting up that side '
+    'condition fails in the real code when data precedes the CLOSE (defect D2, reported by the oracle)',
+    'closed_channel_cleaned_any_phase: the create() coroutine does not advance during the run (its suspension '
+    'point is part of the arbitrary initial state; its reaction to a failed request, close(), is an application event)',
 ]
 
 GEN_PATH = 'AsyncsshModel/Gen/C09.lean'
@@ -147,7 +155,7 @@ async def _run_real_scripts(scripts: List[List[str]]) -> List[Tuple[List[str], D
                 outs.append(await asyncio.wait_for(R.run_script(sc, tags), 30))
             except Exception as e:          # a script that cannot even be executed is reported, not hidden
                 outs.append((['harness-exception:' + type(e).__name__ + ':' + str(e)[:80]] * len(sc),
-                             {'leftover_tasks': [], 'loop_errors': [], 'settle_rounds': []}))
+                             {'leftover_tasks': [], 'loop_errors': [], 'settle_rounds': [], 'mid': [], 'judged': {}}))
     return outs
 
 
@@ -155,12 +163,14 @@ def run_real(scripts: List[List[str]], timeout: float = 3000) -> List[Tuple[List
     return pair.run(_run_real_scripts(scripts), timeout=timeout)
 
 
-def make_scripts(rng: Any, nbase: int, kinds_per_point: int) -> List[Tuple[List[str], str]]:
-    """Base scripts plus, for every packet boundary of each, cut variants."""
+def make_scripts(rng: Any, nbase: int, kinds_per_point: int, nscen: int = 0) -> List[Tuple[List[str], str]]:
+    """Base scripts plus, for every packet boundary of each, cut variants.  The first `nscen` bases are the
+    start-up scenarios (the peer's CLOSE arrives while the channel is still in its start-up phase)."""
     out: List[Tuple[List[str], str]] = []
-    for _ in range(nbase):
-        base = G.gen_base(rng)
-        out.append((base + G.epilogue(), 'base'))
+    bases = [(b, 'startup-' + name) for name, b in G.startup_scenarios(rng, nscen)]
+    bases += [(G.gen_base(rng), 'base') for _ in range(nbase)]
+    for base, tag in bases:
+        out.append((base + G.epilogue(), tag))
         for v, kind, _b in G.cut_variants(base, rng, kinds_per_point):
             out.append((v, kind))
     return out
@@ -231,6 +241,10 @@ def script_failures(sc: List[str], out: List[str], info: Dict[str, Any], kind: s
         for sig, detail in check_show(o, final):
             fails.append(Failure(sig, f'{detail} after script line {i} (cut kind {kind})',
                                  {'kind': 'script', 'script': sc, 'at': i}))
+    # judged while the connection is still up: a channel whose peer's CLOSE has arrived and whose loop has drained
+    for at, sig, detail in info.get('mid') or []:
+        fails.append(Failure(sig, f'{detail}; observed at script line {at} "{sc[at] if at < len(sc) else ""}" '
+                                  f'(cut kind {kind})', {'kind': 'script', 'script': sc, 'at': at}))
     if info.get('leftover_tasks'):
         fails.append(Failure('task-pending-at-quiescence:' + info['leftover_tasks'][0],
                              f'asyncio tasks still pending after the connection closed: {info["leftover_tasks"]}',
@@ -423,7 +437,8 @@ def correspondence(ctx: Ctx) -> CorrResult:
     rng = ctx.subrng('corr')
 
     # (1) life-cycle scripts with a cut at every packet boundary -------------------------------------------
-    items = make_scripts(rng, ctx.n(26, 320), 1 if ctx.tier == 'quick' and not ctx.escalated else 2)
+    items = make_scripts(rng, ctx.n(26, 320), 1 if ctx.tier == 'quick' and not ctx.escalated else 2,
+                         ctx.n(8, 60))
     scripts = [s for s, _k in items]
     real = run_real(scripts)
     flat = [l for s in scripts for l in s]
@@ -675,7 +690,8 @@ def oracle(ctx: Ctx) -> OracleResult:
     for s in ctx.suspects:
         if isinstance(s, dict) and s.get('kind') == 'script':
             items.append((s['script'], 'suspect'))
-    items += make_scripts(rng, ctx.n(14, 110 if ctx.tier == 'quick' else 260), 1 if not ctx.escalated else 2)
+    items += make_scripts(rng, ctx.n(14, 110 if ctx.tier == 'quick' else 260), 1 if not ctx.escalated else 2,
+                          ctx.n(10, 40 if ctx.tier == 'quick' else 120))
     real = run_real([s for s, _k in items])
     seen_sigs: Dict[str, int] = collections.Counter()
     for (sc, kind), (out, info) in zip(items, real):
@@ -687,6 +703,8 @@ def oracle(ctx: Ctx) -> OracleResult:
                 res.failures.append(f)
         if info.get('settle_rounds'):
             hist.hit('final-settle-rounds:%d' % min(12, max(info['settle_rounds'][-3:])))
+        for k, n in (info.get('judged') or {}).items():
+            hist.hit('closed-while-connection-up:' + k, n)
     res.nontrivial += len(set(tuple(s) for s, _k in items))
 
     # (b) SFTP client requests outstanding when the connection is lost -------------------------------------------
@@ -746,7 +764,10 @@ def oracle(ctx: Ctx) -> OracleResult:
     res.nontrivial += res.evaluations
     res.histogram = dict(hist)
     res.samples = [{'script_kind': items[0][1], 'final_observation': real[0][0][-1][:400]}]
-    res.rule = ('the property evaluated on the real code: after the final loss of both transports nothing awaited is '
+    res.rule = ('the property evaluated on the real code: at EVERY quiescent point while the connection is up, a channel '
+                'whose peer\'s CLOSE has been delivered has returned its CLOSE, resolved create_session / wait_closed, '
+                'told its session connection_lost and left the channel table (whatever phase it was in; only an '
+                'application-paused reader holding data is excused); after the final loss of both transports nothing awaited is '
                 'pending, every session/owner log is connection_made·x*·connection_lost, no channel registered on a '
                 'closed connection, no task left, bounded loop iterations; plus end-to-end SFTP / stream / connect '
                 'scenarios under 7 ways of losing the connection')
